@@ -98,7 +98,14 @@ func rwRecursive() {
 	var m sync.RWMutex
 	var wg sync.WaitGroup
 	wg.Add(2)
-	sched.Go(func() { m.RLock(); sched.Yield(); m.RLock(); m.RUnlock(); m.RUnlock(); wg.Done() })
+	sched.Go(func() {
+		m.RLock()
+		sched.Yield()
+		m.RLock()
+		m.RUnlock()
+		m.RUnlock()
+		wg.Done()
+	})
 	sched.Go(func() { m.Lock(); m.Unlock(); wg.Done() })
 	sched.SetOutcome("deadlock")
 	wg.Wait()
